@@ -7,6 +7,8 @@
 """
 import json, os, shutil, subprocess, sys, glob, time
 V = '/verif'
+WT = os.environ.get('WT', '/tmp/wt')          # scratch worktrees of the sub-agents
+TAG = os.environ.get('TAG', 'm')             # 'm' round 1, 'n' round 2
 SUITE = "unshare -rn sh -c 'ip link set lo up; cd {wt} && /venv/bin/python -m pytest -q -p no:cacheprovider --timeout=900 -x 2>&1 | tail -3'"
 
 
@@ -15,10 +17,10 @@ def sh(cmd, **kw):
 
 
 def collect(pid):
-    out = '/tmp/wt/%s/out' % pid
+    out = '%s/%s/out' % (WT, pid)
     for p in sorted(glob.glob(out + '/m*.patch')):
         k = os.path.basename(p)[1:-6]
-        dst = '%s/seeded/%s-m%s' % (V, pid, k)
+        dst = '%s/seeded/%s-%s%s' % (V, pid, TAG, k)
         os.makedirs(dst, exist_ok=True)
         shutil.copy(p, dst + '/patch.diff')
         for src, name in (('m%s_demo.py' % k, 'demo.py'), ('m%s.md' % k, 'notes.md')):
@@ -28,11 +30,11 @@ def collect(pid):
 
 
 def verify(pid):
-    wt = '/tmp/wt/%s' % pid
+    wt = '%s/%s' % (WT, pid)
     res = {}
     for p in sorted(glob.glob(wt + '/out/m*.patch')):
         k = os.path.basename(p)[1:-6]
-        mid = '%s-m%s' % (pid, k)
+        mid = '%s-%s%s' % (pid, TAG, k)
         sh('cd %s && git checkout -q -- .' % wt)
         r = {}
         a = sh('cd %s && git apply out/m%s.patch' % (wt, k))
